@@ -129,22 +129,24 @@ theorem C20_semantic_quotes_offender (amb : Ambient) (f : Resolve.File) (d : Dia
   C20_quotes_offender amb d (C20_resolve_sites_fit f d h)
 
 /-- in a run over several files (the file on the command line plus schema files found through the current directory /
-    EXPRESS_PATH) every diagnostic of ANY of the five passes for schema `s` carries the file `s` was read from, and is
-    printed under it -/
-theorem C20_file_of_origin (f : Resolve.File) (s : Resolve.Schema) (fb fwd : Bool) (amb : Ambient) (d : Diag)
+    EXPRESS_PATH) every diagnostic of ANY of the five passes for schema `s` (passes 3-5 walk `s' = linked f fb s`, the schema with
+    its cross-schema entity references resolved) carries the file `s` was read from, and is printed under it — the MODEL
+    attributes it so: `mk path` with the path of the visiting schema; which symbol each C report site passes is tied by the
+    regenerated report-site table and the correspondence -/
+theorem C20_file_of_origin (f : Resolve.File) (s s' : Resolve.Schema) (fb fwd : Bool) (amb : Ambient) (d : Diag)
     (h : d ∈ Resolve.pass1 f s ∨ d ∈ Resolve.pass2 f fb s ∨
-         d ∈ Resolve.pass3 (Resolve.fileOf f s) (Resolve.envOf f fb s) s ∨
-         d ∈ Resolve.pass4 (Resolve.fileOf f s) (Resolve.envOf f fb s) s ∨
-         d ∈ (Resolve.pass5 (Resolve.fileOf f s) (Resolve.envOf f fb s) s).diags) :
+         d ∈ Resolve.pass3 (Resolve.fileOf f s) (Resolve.envOf f fb s) s' ∨
+         d ∈ Resolve.pass4 (Resolve.fileOf f s) (Resolve.envOf f fb s) s' ∨
+         d ∈ (Resolve.pass5 (Resolve.fileOf f s) (Resolve.envOf f fb s) s').diags) :
     d.file = (Resolve.fileOf f s).toList ∧
     ∃ rest, message fwd amb d = (Resolve.fileOf f s).toList ++ ':' :: rest := by
   have hb : Resolve.OKd (Resolve.fileOf f s) d := by
     rcases h with h | h | h | h | h
     · exact Resolve.pass1_ok f s d h
     · exact Resolve.pass2_ok f fb s d h
-    · exact Resolve.pass3_ok _ _ s d h
-    · exact Resolve.pass4_ok _ _ s d h
-    · exact Resolve.pass5_ok _ _ s d h
+    · exact Resolve.pass3_ok _ _ s' d h
+    · exact Resolve.pass4_ok _ _ s' d h
+    · exact Resolve.pass5_ok _ _ s' d h
   have hf := hb.1
   have hv : d.via ≠ .plain := by rw [hb.2.1]; decide
   obtain ⟨rest, hr⟩ := C20_file_attributed fwd amb d hv
@@ -403,7 +405,7 @@ open Resolve in
 /-- MISSING_SUPERTYPE quotes (entity, subtype) for a subtype that really does not list the entity, on the subtype's line -/
 theorem C20_blame_missing_supertype (p : String) (s : Schema) (e : Entity) (d : Diag) (h : d ∈ missingSuperDiags p s e) :
     ∃ sub ∈ subtypesOf s e, ∃ se, findEntity s sub = some se ∧ e.name ∉ supersOf s se ∧
-      d.line = se.line ∧ d.args = [sArg e.name, sArg se.name] :=
+      d.line = se.line ∧ d.args = [sArg e.name, sArg (declName se.name)] :=
   missingSuper_blames p s e d h
 
 open Resolve in
@@ -458,7 +460,7 @@ open Resolve in
 theorem C20_blame_overloaded_attribute (p : String) (s : Schema) (fuel : Nat) (e : Entity) (d : Diag)
     (h : d ∈ overloadDiags p s fuel e) :
     ∃ a ∈ e.attrs, a.redeclOf = none ∧ ∃ sup ∈ supersOf s e, namedAttr s a.name fuel sup = some true ∧
-      d.line = a.line ∧ d.args = [sArg a.name, sArg sup] :=
+      d.line = a.line ∧ d.args = [sArg a.name, sArg (declName sup)] :=
   overload_blames p s fuel e d h
 
 open Resolve in
@@ -467,7 +469,7 @@ theorem C20_blame_redeclaration (p : String) (s : Schema) (fuel : Nat) (e : Enti
     ∃ a ∈ e.attrs, ∃ sup, a.redeclOf = some sup ∧ d.line = a.line ∧
       ((d.code = LibErrors.REDECL_NO_SUCH_SUPERTYPE ∧ d.args = [sArg sup, sArg a.name] ∧
           (sup = e.name ∨ isAncestor s sup fuel e.name = false)) ∨
-       (d.code = LibErrors.REDECL_NO_SUCH_ATTR ∧ d.args = [sArg a.name, sArg sup] ∧
+       (d.code = LibErrors.REDECL_NO_SUCH_ATTR ∧ d.args = [sArg a.name, sArg (declName sup)] ∧
           ∃ se, findEntity s sup = some se ∧ se.attrs.any (·.name = a.name) = false)) :=
   redecl_blames p s fuel e d h
 
